@@ -737,7 +737,17 @@ func supervise(c *run.Ctx, planPath string, p *Plan, pt point, dir string) {
 		c.Stat("recovered_ahead_of_ack", 1)
 	}
 	for _, v := range res.Verdicts {
-		c.Violation("C08/"+v.Class+":"+sc, fmt.Sprintf("after a crash at %s: %s", pt.Spec, v.Msg), wit)
+		cls := v.Class
+		if cls == "account-state-older-than-stable-block" {
+			// a torn append to the write-ahead file loses records on the unchanged tree too (its replay has no checksum: known
+			// finding); after complete writes only an ordering mistake of the commit path can leave older account data
+			if pt.Spec.Tear > 0 {
+				cls += ":after-a-torn-write"
+			} else {
+				cls += ":after-complete-writes"
+			}
+		}
+		c.Violation("C08/"+cls+":"+sc, fmt.Sprintf("after a crash at %s: %s", pt.Spec, v.Msg), wit)
 	}
 	c.Case(siteGroup(pt.Spec.Site)+"/"+phase+fmt.Sprintf("/plan%d/%s", pt.Plan, occClass(pt.Spec.Occ)), true, wit)
 }
